@@ -15,7 +15,7 @@ from lib import gen, lang as L, refsem, polar_driver as pd, common
 PROPERTY_ID = "C10"
 RULE = (
     "programs from the generator profile 'param' (parameter p in probabilities {p}, Bernoulli(p), 1-p, p/2, as coefficient, as initial value, inside branches; "
-    "optionally a second parameter q fixed to a rational); one goal monomial of degree <= 3; "
+    "optionally a second parameter q fixed to a rational; 30% with an accumulator acc = acc + c(p)*u*v over a p-dependent and a p-independent variable); one goal monomial of degree <= 3; "
     "non-trivial = the true derivative is not identically zero on the tested n; distinct by (program, goal)"
 )
 ASSUMPTIONS = [
@@ -53,6 +53,20 @@ def cases(draw, tier="quick"):
     if dep and not (set(goals[0]) & dep):
         goals[0][draw(st.sampled_from(sorted(dep)))] = 1
     qv = draw(st.sampled_from(["1/4", "2/5", "1/5"]))
+    if draw(st.integers(0, 9)) >= 7:
+        # an accumulator whose increment has the parameter as coefficient of a product of a parameter-dependent and a
+        # parameter-independent variable (cost = cost + p*hits*time): the product rule has to see both factors
+        dn, tn = draw(st.sampled_from([("h", "t"), ("t", "h"), ("hits", "time"), ("time", "hits"), ("m", "kk"), ("kk", "m")]))
+        dep_stmt = draw(st.sampled_from([["assign", dn, ["draw", "Bernoulli", [["sym", "p"]]]],
+                                         ["assign", dn, ["choice", [["add", L.var(dn), L.num(1)], L.var(dn)], [["sym", "p"]]]]]))
+        ind_stmt = draw(st.sampled_from([["assign", tn, ["expr", ["add", L.var(tn), L.num(1)]]], ["assign", tn, ["draw", "DiscreteUniform", [L.num(1), L.num(3)]]],
+                                         ["assign", tn, ["choice", [["mul", L.num(2), L.var(tn)], L.var(tn)], [L.num("1/2")]]]]))
+        coeff = draw(st.sampled_from([["sym", "p"], ["sub", L.num(1), ["sym", "p"]], ["mul", L.num(2), ["sym", "p"]], ["pow", ["sym", "p"], 2]]))
+        f1, f2 = (L.var(dn), L.var(tn)) if draw(st.booleans()) else (L.var(tn), L.var(dn))
+        acc_stmt = ["assign", "acc", ["expr", ["add", L.var("acc"), ["mul", ["mul", coeff, f1], f2]]]]
+        prog["body"] += [dep_stmt, ind_stmt, acc_stmt] if draw(st.booleans()) else [ind_stmt, dep_stmt, acc_stmt]
+        prog["init"] += [["assign", dn, ["expr", L.num(0)]], ["assign", tn, ["expr", L.num(1)]], ["assign", "acc", ["expr", L.num(0)]]]
+        return {"prog": prog, "goal": {"acc": 1}, "q": qv}
     return {"prog": prog, "goal": goals[0], "q": qv}
 
 
